@@ -30,6 +30,18 @@ atoms (unitaries / states drawn from env.rng(tag), integer seeds handed to numqi
              trace distance non-increasing, fidelity non-decreasing, relative entropy non-increasing (finite cases), with
              equality for unitaries and isometries (invertible channels: the inequality holds in both directions), fidelity
              symmetric, in [0,1] and independent of the ket/projector form, entropies in [0, log d]; numpy and torch.
+  options  : (coordinates inside the cases above, each enumerated completely)
+             get_relative_entropy(tr_rho_log_rho=reference Tr rho log rho) for EVERY pair with finite relative entropy (inputs and channel
+             outputs, both backends) equals the default call; torch arguments that require grad, {rho, sigma, both} x _torch_logm in {'eigen',
+             default ('pade',6,8), ('pade',8,10)} on every input pair with full-rank sigma (both + default on every output pair), equal the
+             numpy value; get_von_neumann_entropy (torch) x {no grad, grad} x {'eigen', ('pade',6,8), ('pade',8,10)} on every input state (grad +
+             ('pade',6,8) on every channel output) equals the plain call; get_von_neumann_entropy on the whole state alphabet as one batch (n,d,d) and (1,n,d,d) (torch: also grad + pade) has
+             shape (n,) / (1,n) and equals the single calls; choi_op_to_kraus_op / super_op_to_kraus_op(zero_eps=t), t in {0, 1e-14, 1e-10, 1e-4},
+             on every channel of the conv alphabet and every noise channel (rates 1e-9 from both ends included): number of terms = number of
+             reference eigenvalues >= t (an interval where an eigenvalue is within the eigh backward error of t), reconstruction error <= d_in *
+             (sum of dropped eigenvalues) + tol_lin; the Kraus set as a Python list for apply_kraus_op (numpy, torch) and kraus_op_to_super_op.
+             The input alphabet of every contract / noise case runs the complete option grid; channel outputs enter the option axes
+             (tr_rho_log_rho, grad + pade) for max(d_in,d_out) <= 3 in both tiers (budget cap; the code paths do not depend on d).
 Oracle: Phi(X) = sum_s K_s X K_s^dagger by explicit loops; Choi C[(i,o),(j,p)] = Phi(E_ij)[o,p]; super S[(o,p),(i,j)] = Phi(E_ij)[o,p].
 
 Tolerances (DESIGN 3.2: c * eps * kappa, c = C_SAFETY = 1e3, eps = 2.2e-16):
@@ -53,6 +65,7 @@ Tolerances (DESIGN 3.2: c * eps * kappa, c = C_SAFETY = 1e3, eps = 2.2e-16):
   relative entropy. Tr rho log rho - Tr rho log sigma: the second term has condition 1/lambda_min+(sigma) (smallest non-zero eigenvalue;
     computed by the reference). tol_R = C_SAFETY * eps * d * (40 + 1/lmin+(sigma) + 1/lmin+(Phi sigma)); pairs with kappa > 1e8 are counted
     as skipped_ill_conditioned; pairs whose supports are not nested (relative entropy +inf) are outside_math_domain.
+  Pade matrix logarithm (torch, requires_grad): Gauss-Legendre remainder + rounding, derived in tol_pade().
 """
 
 import numpy as np
@@ -71,7 +84,11 @@ RULE = ('case = (d_in, d_out, n_K, field[, backend]); inside a case the whole ch
         'root-to-leaf conversion path on which every node was compared in lock-step. bloch: state = (channel, state of the basis alphabet). '
         'contract / noise: state = (channel, ordered pair of alphabet states) or (noise channel, rate, rate type); transition = one '
         'numqi.utils / numqi.channel call that entered a checked (in)equality. non-trivial = the observed representation is not a 0/1 matrix '
-        '(conv, bloch), the observed contraction is strict (contract), the rate is interior (noise)')
+        '(conv, bloch), the observed contraction is strict (contract), the rate is interior (noise). Option coordinates enumerated inside these '
+        'cases: tr_rho_log_rho supplied / computed (every finite pair, both backends); torch requires_grad on {rho, sigma, both} x _torch_logm in '
+        '{eigen, default pade(6,8), pade(8,10)} (full-rank sigma) against numpy; entropy x {grad, no grad} x the same logm alphabet; entropy of the '
+        'state alphabet as a batch (n,d,d) / (1,n,d,d); zero_eps in {0, 1e-14, 1e-10, 1e-4} at the C->K and S->K edges of every channel (term '
+        'count against the reference spectrum + reconstruction); Kraus set as a Python list (apply_kraus_op numpy/torch, kraus_op_to_super_op)')
 ASSUMPTIONS = [
     'reference semantics: Phi(X) = sum_s K_s X K_s^dagger (explicit numpy loops); Choi operator indexed (in,out,in,out) with '
     'C[(i,o),(j,p)] = Phi(E_ij)[o,p]; super-operator indexed (out*out, in*in) acting on the row-major flattened state - the '
@@ -88,7 +105,16 @@ ASSUMPTIONS = [
     'get_trace_distance are numpy-only by their docstrings/comments',
     'contractivity, fidelity and entropy statements are lattice statements over the enumerated channel x state-pair alphabet (non-linear '
     'functions); the representation equivalence is complete modulo linearity',
-    'dimensions above the bound, GPU tensors, float32/complex64 inputs, batches of channels and autograd are outside the explored space',
+    'dimensions above the bound, GPU tensors, float32/complex64 and integer-dtype inputs, batches of channels and gradients (backward passes) '
+    'are outside the explored space; requires_grad inputs are explored for their forward value only (it selects the Pade logarithm)',
+    'the option axes (tr_rho_log_rho, requires_grad x _torch_logm) are enumerated on the input alphabet of every case and on channel outputs '
+    'only for max(d_in,d_out) <= 3 (counter output_option_axes_not_enumerated)',
+    'the requires_grad x _torch_logm axis of get_relative_entropy is explored for full-rank sigma with 1/lambda_min <= 1e8 (the Gauss-Legendre '
+    'remainder bound needs lambda_min > 0); tr_rho_log_rho is supplied as a Python float equal to the reference Tr rho log rho (0 log 0 = 0)',
+    'the number of Kraus terms returned for a threshold zero_eps is checked as an interval [#{ev >= zero_eps+noise}, #{ev >= zero_eps-noise}], '
+    'noise = 1e3 eps N d_in (eigh backward error): for zero_eps <= noise the count of exactly-zero reference eigenvalues kept is not determined',
+    'a Kraus set given as a Python list is admissible only for the functions that iterate over it (apply_kraus_op, kraus_op_to_super_op); '
+    'kraus_op_to_choi_op uses .transpose and needs an array',
 ]
 CHUNK = 1
 
@@ -277,10 +303,7 @@ def tol_pade(d, s, m, lmin, weighted):
       lambda 2^s c_m ((1-u)/u)^(2m+1) = 2^s c_m u^a (1-u)^b with a = 2^s-2m-1 >= 0, b = 2m+1, maximal at u = a/(a+b): valid for singular states too.
     rounding. X carries a relative error d eps; every one of the m solves has condition <= 1/min eig[(1-t_k) + t_k X] <= 1/max(u_min, 1-t_max); the
       sum has m terms and the result is multiplied by 2^s:  kappa = 2^s (m+1) / max(u_min, 1 - t_max)."""
-    import math
-    node = np.polynomial.legendre.leggauss(m)[0]
-    tmax = float((node.max() + 1) / 2)
-    cm = math.factorial(m) ** 4 / ((2 * m + 1) * float(math.factorial(2 * m)) ** 2)
+    tmax, cm = _pade_constants(m)
     umin = float(max(lmin, 0.0)) ** (1.0 / 2 ** s)
     if weighted:
         a, b = 2 ** s - 2 * m - 1, 2 * m + 1
@@ -289,6 +312,27 @@ def tol_pade(d, s, m, lmin, weighted):
     else:
         trunc = 2 ** s * cm * ((1 - umin) / umin) ** (2 * m + 1)
     return C_SAFETY * EPS * d * 2 ** s * (m + 1) / max(umin, 1 - tmax) + trunc
+
+
+_PADE_CONST = {}
+
+
+def _pade_constants(m):
+    """largest node t_max of the m-point Gauss-Legendre rule on [0,1] and the remainder constant c_m"""
+    if m not in _PADE_CONST:
+        import math
+        node = np.polynomial.legendre.leggauss(m)[0]
+        _PADE_CONST[m] = (float((node.max() + 1) / 2), math.factorial(m) ** 4 / ((2 * m + 1) * float(math.factorial(2 * m)) ** 2))
+    return _PADE_CONST[m]
+
+
+def ref_choi_of_kraus(K, din, dout):
+    """C = sum_s vec(K_s) vec(K_s)^+ with vec(K)[(i,o)] = K[o,i]: the same numbers as phiE_to_choi(ref_phiE(K)), one outer product per term"""
+    C = np.zeros((din * dout, din * dout), dtype=np.complex128)
+    for s in range(K.shape[0]):
+        v = np.asarray(K[s]).astype(np.complex128).T.reshape(-1)
+        C = C + np.outer(v, v.conj())
+    return C
 
 
 def ref_tr_rho_log_rho(rho):
@@ -302,6 +346,7 @@ ZERO_EPS_ALPHABET = [0.0, 1e-14, ZERO_EPS, 1e-4]  # zero_eps= coordinate of choi
 LOGM_DEFAULT = ('pade', 6, 8)  # default _torch_logm of get_relative_entropy (read from the signature)
 LOGM_ALPHABET = ['eigen', None, ('pade', 8, 10)]  # None = the function's default
 GRAD_ALPHABET = ['r', 's', 'rs']  # which argument requires grad
+OPTS_DMAX = 3  # channel OUTPUTS enter the option axes for max(d_in,d_out) <= 3 (both tiers); the input alphabets of every case do (complete grid)
 PENDING = set()  # additions whose oracle fires on the unchanged tree (reported; see the audit protocol)
 
 
@@ -749,7 +794,6 @@ def zero_eps_edges(ctx, ch, site, Cref, Sref):
     reference eigenvalue is near the threshold) and the returned set reproduces the channel up to d_in * (sum of eigenvalues that may be dropped)."""
     out, din, dout, nk = ctx.out, ctx.din, ctx.dout, ctx.nk
     N = din * dout
-    PhiE = ctx.chan['PhiE']
     ev = np.linalg.eigvalsh((Cref + Cref.conj().T) / 2)
     noise = C_SAFETY * EPS * N * din
     for thr in ZERO_EPS_ALPHABET:
@@ -779,7 +823,7 @@ def zero_eps_edges(ctx, ch, site, Cref, Sref):
                               '%s(zero_eps=%g) returned %d Kraus terms; the reference Choi operator has between %d and %d eigenvalues >= zero_eps (+- %.3g) '
                               '(d_in=%d, d_out=%d, n_K=%d, channel %s)' % (fname, thr, yn.shape[0], lower, upper, noise, din, dout, nk, ctx.chan['label']), **ctx.detail(**det))
                 continue
-            err = np.abs(ref_phiE(yn) - PhiE).max() if yn.shape[0] else np.abs(PhiE).max()
+            err = np.abs(ref_choi_of_kraus(yn, din, dout) - Cref).max()  # Choi entries are the entries of Phi(E_ij)
             if err > t_rep:
                 out.violation('%s/%s[zero_eps]/wrong_representation' % (site, fname),
                               '%s(zero_eps=%g): the returned Kraus set does not implement the channel: |sum_s K_s E_ij K_s^+ - Phi(E_ij)|=%.3g > tol=%.3g (dropped '
@@ -1024,7 +1068,7 @@ class Measures:
         return yn.real.astype(np.float64)
 
 
-def state_invariants(ms, out, ctx, site, label, rho, d):
+def state_invariants(ms, out, ctx, site, label, rho, d, full_grid=True):
     """entropy in [0, log d]"""
     S = ms.entropy(rho)
     if S is None:
@@ -1033,10 +1077,11 @@ def state_invariants(ms, out, ctx, site, label, rho, d):
     if S < -t or S > np.log(d) + t:
         out.violation('%s/get_von_neumann_entropy%s/out_of_range' % (site, ms.sfx), 'entropy %.12g of state %s is outside [0, log %d = %.12g] (tol %.3g)'
                       % (S, label, d, np.log(d), t), **ctx.detail(rho=rho, got=S))
-    if ms.backend == 'torch':
+    if ms.backend == 'torch' and full_grid is not None:
         # option axis (requires_grad, _torch_logm): the forward value does not depend on it. 'pade' is used only when the state requires grad.
-        for grad in (False, True):
-            for logm in ('eigen', LOGM_DEFAULT, LOGM_ALPHABET[-1]) if grad else (LOGM_DEFAULT,):
+        # (complete grid on the input alphabet; grad + ('pade',6,8) on every channel output)
+        for grad in (False, True) if full_grid else (True,):
+            for logm in (LOGM_DEFAULT,) if not (grad and full_grid) else ('eigen', LOGM_DEFAULT, LOGM_ALPHABET[-1]):
                 v = ms.entropy(rho, grad=grad, _torch_logm=logm)
                 pade = grad and logm != 'eigen'
                 tt = 2 * t + (tol_pade(d, logm[1], logm[2], 0.0, True) if pade else 0.0)
@@ -1078,7 +1123,7 @@ def relative_entropy_options(ms, out, ctx, site, pair, ra, rb, r, d, full_grid, 
     r_np = ms.as_numpy().relative_entropy(ra, rb)
     if r_np is None:
         return
-    grid = [(g, m) for g in GRAD_ALPHABET for m in LOGM_ALPHABET] if full_grid else [('rs', 'eigen'), ('rs', None)]
+    grid = [(g, m) for g in GRAD_ALPHABET for m in LOGM_ALPHABET] if full_grid else [('rs', None)]
     for g, logm in grid:
         eff = LOGM_DEFAULT if logm is None else logm
         v = ms.relative_entropy(ra, rb, grad=g, **({} if logm is None else {'_torch_logm': logm}))
@@ -1204,8 +1249,11 @@ def contract_channel(numqi, out, ctx, site, ms, chan, sts, before, din, dout, ba
         routs.append(R)
     tT = tol_T(din) + tol_T(dout)
     tF = tol_F(din) + tol_F(dout)
+    opts = max(din, dout) <= OPTS_DMAX
+    if not opts:
+        out.count('output_option_axes_not_enumerated(d > %d)' % OPTS_DMAX)
     for a in range(n):
-        state_invariants(ms, out, ctx, site, 'Phi(%s)' % sts[a]['label'], outs[a], dout)
+        state_invariants(ms, out, ctx, site, 'Phi(%s)' % sts[a]['label'], outs[a], dout, full_grid=False if opts else None)
     entropy_batches(ms, out, ctx, site, 'the channel outputs', outs, dout)
     F1 = np.full((n, n), np.nan)
     for a in range(n):
@@ -1254,7 +1302,8 @@ def contract_channel(numqi, out, ctx, site, ms, chan, sts, before, din, dout, ba
                         if r1 < -tR:
                             out.violation('%s/get_relative_entropy%s/negative' % (site, ms.sfx), 'relative entropy %.12g < 0 for the channel outputs of (%s, %s)' % (r1, la, lb),
                                           **ctx.detail(got=r1, **det))
-                        relative_entropy_options(ms, out, ctx, site, ('Phi(%s)' % la, 'Phi(%s)' % lb), outs[a], outs[b], r1, dout, False, kappas=[k1])
+                        if opts:
+                            relative_entropy_options(ms, out, ctx, site, ('Phi(%s)' % la, 'Phi(%s)' % lb), outs[a], outs[b], r1, dout, False, kappas=[k1])
                         strict = strict or r1 < R0[a, b] - 1e-9
             out.outcome((din, dout, None if t1 is None else round(t1, 6), None if f1 is None else round(f1, 6)), nontrivial=strict)
     for a in range(n):
@@ -1445,6 +1494,9 @@ def build_cases(tier, seed):
         'generic_atoms': G, 'generic_atoms_contract': Gc, 'backends': ['numpy', 'torch'],
         'noise_rates': sorted({r for _, r in rate_alphabet(tier)}), 'noise_rate_types': ['float', 'int', 'np.float64', 'np.float32'],
         'property_quantifier_dims': [1, 5],
+        'zero_eps_alphabet': ZERO_EPS_ALPHABET, 'torch_logm_alphabet': ['eigen', 'default=%r' % (LOGM_DEFAULT,), repr(LOGM_ALPHABET[-1])],
+        'requires_grad_alphabet': ['none'] + GRAD_ALPHABET, 'tr_rho_log_rho': ['None', 'reference value'],
+        'entropy_batch_forms': ['(n,d,d)', '(1,n,d,d)'], 'kraus_set_forms': ['array', 'list of matrices'], 'pending': sorted(PENDING),
         'exhaustive': True,
         'note': ('exhaustive within the stated bounds: every (d_in,d_out,n_K,field) x channel alphabet x conversion path of length <= %d x '
                  'complete matrix-unit alphabet is executed; this tier covers d_in,d_out = 1..%d (the property quantifies 1..5). The statement '
